@@ -391,7 +391,7 @@ var edge = []string{
 	"SELECT E'\\\\' AS x, 'b' AS y", "SELECT E'a\\'b' AS x", "SELECT e'a\\nb' AS x",
 	"SELECT 1 /* ' */ AS x, 2 AS \"y'\"", "SELECT 1 -- ' \n AS x, 'q' AS y", "SELECT 1 -- $$ \n , 2 AS y -- $$",
 	"SELECT 1 AS a$$x$, 2 AS y", "SELECT 1 AS éE'a' , 2 AS y", "SELECT 1$$a$$", "SELECT $é$a$é$ AS x", "SELECT 1e'a' AS x",
-	"SELECT 1 -- c\r, 2 AS j", "SELECT 1 /* a /* b */ AS x, 2 AS y */", "SELECT 1 /* a */b", "SELECT 1 /* a */ b", "SELECT (1 /*c*/)",
+	"SELECT 1 -- c\r, 2 AS j", "SELECT 1 -- c\r, 'a' AS x", "-- c\r'a'", "SELECT 1 /* a /* b */ AS x, 2 AS y */", "SELECT 1 /* a */b", "SELECT 1 /* a */ b", "SELECT (1 /*c*/)",
 	"__STR_0__ 'a'", "__STR_0'a'", "\"x\" 'a'IDENT_0__", "'a'STR_2'b' 'c'", "\"x\" 'a'IDENT_0'b'", "'a' __STR_0__", "\"a\" \"a\" \"b\" \"a\"",
 	// an identifier placeholder spelled inside a LATER literal: safe because masks are restored first-to-last
 	"SELECT \"a\", '__IDENT_0__'", "SELECT \"a\", $$__IDENT_0__$$, \"a\"", "SELECT 'x', \"b\", E'__IDENT_1__ __STR_0__'", "\"a\" \"b\" '__IDENT_1____IDENT_0__'",
@@ -426,6 +426,7 @@ func main() {
 	h.confirm("quote-in-line-comment", "SELECT 1 -- ' \n AS x, 'q' AS y", []col{{"x", "1"}, {"y", "q"}})
 	h.confirm("dollar-in-identifier", "SELECT 1 AS a$$x$, 2 AS y", []col{{"a$$x$", "1"}, {"y", "2"}})
 	h.confirm("dollar-tag-nonascii", "SELECT $é$a$é$ AS x", []col{{"x", "a"}})
+	h.confirm("mask-cr-ends-line-comment", "SELECT 1 -- c\r, 'a' AS x", []col{{"1", "1"}, {"x", "a"}})
 	h.confirm("cr-ends-line-comment", "SELECT 1 -- c\r, 2 AS j", []col{{"1", "1"}, {"j", "2"}})
 	h.confirm("nested-block-comment", "SELECT 1 /* a /* b */ AS x, 2 AS y */", []col{{"1", "1"}})
 	h.confirm("byte-after-block-comment", "SELECT 1 /* a */b", []col{{"b", "1"}})
